@@ -364,7 +364,8 @@ Qed.
 Lemma ensure_bucket_inv c s b : Inv s -> Inv (fst (ensure_bucket c s b)).
 Proof.
   intros Hi. unfold ensure_bucket. destruct (get_bucket s b); [exact Hi|].
-  destruct (cfg_auto_bucket c); [|exact Hi]. cbn [fst]. apply create_bucket_inv. exact Hi.
+  destruct (cfg_auto_bucket c); [|exact Hi].
+  destruct (validate b); [|exact Hi]. cbn [fst]. apply create_bucket_inv. exact Hi.
 Qed.
 
 (* every operation, in every configuration, preserves the invariant *)
@@ -452,11 +453,25 @@ Lemma run_inv c ops : Inv (fst (run c init ops)).
 Proof. apply run_inv_gen. apply inv_init. Qed.
 
 (* error codes produced by the backend operations *)
+(* the bucket check refuses in exactly two ways: the bucket is absent and auto-bucket is off, or
+   auto-bucket is on and the name of the absent bucket fails the create-bucket validation; in both
+   cases nothing is created *)
 Lemma ensure_bucket_err c s b s1 e :
-  ensure_bucket c s b = (s1, Some e) -> e = ENoSuchBucket /\ s1 = s.
+  ensure_bucket c s b = (s1, Some e) ->
+  (e = ENoSuchBucket /\ cfg_auto_bucket c = false \/
+   e = EInvalidBucketName /\ cfg_auto_bucket c = true /\ validate b = false) /\
+  get_bucket s b = None /\ s1 = s.
 Proof.
   unfold ensure_bucket. destruct (get_bucket s b); [discriminate|].
-  destruct (cfg_auto_bucket c); [discriminate|]. intros H; inversion H; auto.
+  destruct (cfg_auto_bucket c).
+  - destruct (validate b); [discriminate|]. intros H; inversion H; auto 6.
+  - intros H; inversion H; auto 6.
+Qed.
+
+Lemma ensure_bucket_err_no_panic c s b s1 e :
+  ensure_bucket c s b = (s1, Some e) -> e <> EPanic.
+Proof.
+  intros H. apply ensure_bucket_err in H. destruct H as [[[-> _]|[-> _]] _]; discriminate.
 Qed.
 
 Lemma ensure_bucket_ok c s b s1 :
@@ -464,7 +479,8 @@ Lemma ensure_bucket_ok c s b s1 :
 Proof.
   unfold ensure_bucket. destruct (get_bucket s b) as [bk|] eqn:Eb.
   - intros H; inversion H; subst. eauto.
-  - destruct (cfg_auto_bucket c); [|discriminate]. intros H; inversion H; subst; clear H.
+  - destruct (cfg_auto_bucket c); [|discriminate]. destruct (validate b); [|discriminate].
+    intros H; inversion H; subst; clear H.
     unfold create_bucket. rewrite Eb. cbn [fst]. rewrite get_bucket_set_eq. eauto.
 Qed.
 
@@ -578,21 +594,21 @@ Proof.
     apply create_bucket_err in Ec. destruct Ec as [-> _]. discriminate.
   - (* delete bucket *)
     destruct (ensure_bucket c s b) as [s1 [e|]] eqn:Ee.
-    { apply ensure_bucket_err in Ee. destruct Ee as [-> _]. discriminate. }
+    { apply ensure_bucket_err_no_panic in Ee. cbn [snd]. congruence. }
     destruct (delete_bucket s1 b) as [s2 [e|]] eqn:Ed; [|discriminate].
     apply delete_bucket_err in Ed. destruct Ed as [[-> | ->] _]; discriminate.
   - destruct (ensure_bucket c s b) as [s1 [e|]] eqn:Ee; [|discriminate].
-    apply ensure_bucket_err in Ee. destruct Ee as [-> _]. discriminate.
+    apply ensure_bucket_err_no_panic in Ee. cbn [snd]. congruence.
   - discriminate.
   - (* put *)
     destruct (ensure_bucket c s b) as [s1 [e|]] eqn:Ee.
-    { apply ensure_bucket_err in Ee. destruct Ee as [-> _]. discriminate. }
+    { apply ensure_bucket_err_no_panic in Ee. cbn [snd]. congruence. }
     destruct (put_object s1 b k body (carry_meta s1 b k m)) as [s2 [[e|] vid]] eqn:Ep; [|discriminate].
     apply put_object_err in Ep. destruct Ep as [-> _]. discriminate.
   - (* get *)
     pose proof (ensure_bucket_inv c s b Hi) as H1.
     destruct (ensure_bucket c s b) as [s1 [e|]] eqn:Ee.
-    { apply ensure_bucket_err in Ee. destruct Ee as [-> _]. discriminate. }
+    { apply ensure_bucket_err_no_panic in Ee. cbn [snd]. congruence. }
     cbn [fst] in H1. destruct vid as [id|].
     + destruct (negb (cfg_versioned c)); [discriminate|].
       pose proof (get_object_version_no_panic s1 b k id) as Hv.
@@ -603,7 +619,7 @@ Proof.
   - (* head *)
     pose proof (ensure_bucket_inv c s b Hi) as H1.
     destruct (ensure_bucket c s b) as [s1 [e|]] eqn:Ee.
-    { apply ensure_bucket_err in Ee. destruct Ee as [-> _]. discriminate. }
+    { apply ensure_bucket_err_no_panic in Ee. cbn [snd]. congruence. }
     cbn [fst] in H1. destruct vid as [id|].
     + destruct (negb (cfg_versioned c)); [discriminate|].
       pose proof (get_object_version_no_panic s1 b k id) as Hv.
@@ -613,22 +629,22 @@ Proof.
       destruct (get_object s1 b k); [cbn [snd]; congruence|discriminate].
   - (* delete *)
     destruct (ensure_bucket c s b) as [s1 [e|]] eqn:Ee.
-    { apply ensure_bucket_err in Ee. destruct Ee as [-> _]. discriminate. }
+    { apply ensure_bucket_err_no_panic in Ee. cbn [snd]. congruence. }
     destruct (delete_object s1 b k) as [s2 [[e|] [mk vid]]] eqn:Ep; [|discriminate].
     apply delete_object_err in Ep. destruct Ep as [-> _]. discriminate.
   - (* delete version *)
     destruct (negb (cfg_versioned c)); [discriminate|].
     destruct (ensure_bucket c s b) as [s1 [e|]] eqn:Ee.
-    { apply ensure_bucket_err in Ee. destruct Ee as [-> _]. discriminate. }
+    { apply ensure_bucket_err_no_panic in Ee. cbn [snd]. congruence. }
     destruct (delete_object_version s1 b k vid) as [s2 [[e|] [mk vid']]] eqn:Ep; [|discriminate].
     apply delete_object_version_err in Ep. destruct Ep as [-> _]. discriminate.
   - (* multi delete *)
     destruct (ensure_bucket c s b) as [s1 [e|]] eqn:Ee; [|discriminate].
-    apply ensure_bucket_err in Ee. destruct Ee as [-> _]. discriminate.
+    apply ensure_bucket_err_no_panic in Ee. cbn [snd]. congruence.
   - (* copy *)
     pose proof (ensure_bucket_inv c s b Hi) as H1.
     destruct (ensure_bucket c s b) as [s1 [e|]] eqn:Ee.
-    { apply ensure_bucket_err in Ee. destruct Ee as [-> _]. discriminate. }
+    { apply ensure_bucket_err_no_panic in Ee. cbn [snd]. congruence. }
     cbn [fst] in H1.
     pose proof (get_object_no_panic s1 sb sk H1) as Hg.
     destruct (get_object s1 sb sk) as [e|v sv]; [cbn [snd]; congruence|].
@@ -636,14 +652,14 @@ Proof.
     apply put_object_err in Ep. destruct Ep as [-> _]. discriminate.
   - (* set versioning *)
     destruct (ensure_bucket c s b) as [s1 [e|]] eqn:Ee.
-    { apply ensure_bucket_err in Ee. destruct Ee as [-> _]. discriminate. }
+    { apply ensure_bucket_err_no_panic in Ee. cbn [snd]. congruence. }
     destruct (negb (cfg_versioned c)); [destruct enable; discriminate|].
     destruct (set_versioning s1 b enable) as [s2 [e|]] eqn:Ep; [|discriminate].
     apply set_versioning_err in Ep. destruct Ep as [-> _]. discriminate.
   - (* list *)
     pose proof (ensure_bucket_inv c s b Hi) as H1.
     destruct (ensure_bucket c s b) as [s1 [e|]] eqn:Ee.
-    { apply ensure_bucket_err in Ee. destruct Ee as [-> _]. discriminate. }
+    { apply ensure_bucket_err_no_panic in Ee. cbn [snd]. congruence. }
     cbn [fst] in H1. cbv zeta.
     destruct ((has_marker || negb (beq marker []) || negb (maxkeys =? 0)) && negb (cfg_pages c) && cfg_fail_unimpl_page c);
       [discriminate|].
@@ -669,7 +685,8 @@ Proof.
   unfold ensure_bucket. destruct (get_bucket s b) as [bk|] eqn:Eb.
   - intros H; inversion H; auto.
   - destruct (cfg_auto_bucket c).
-    + unfold create_bucket. rewrite Eb. cbn [fst]. intros H; inversion H; subst. right. auto.
+    + destruct (validate b); [|intros H; inversion H; auto].
+      unfold create_bucket. rewrite Eb. cbn [fst]. intros H; inversion H; subst. right. auto.
     + intros H; inversion H; auto.
 Qed.
 
@@ -943,5 +960,203 @@ Proof.
     destruct (list_bucket s b pre delim mk' mx'); reflexivity.
 Qed.
 
+(* with auto-bucket on, an absent bucket whose name fails the create-bucket validation is refused
+   with InvalidBucketName and nothing is created (the counterpart of [law_missing_bucket]) *)
+Lemma law_missing_bucket_auto_invalid c s b k :
+  cfg_auto_bucket c = true -> get_bucket s b = None -> validate b = false ->
+  snd (step c s (OGet b k None)) = RErr EInvalidBucketName /\
+  step c s (ODeleteBucket b) = (s, RErr EInvalidBucketName) /\
+  (forall body m, step c s (OPut b k body m) = (s, RErr EInvalidBucketName)).
+Proof.
+  intros Ha Hb Hv.
+  assert (He : ensure_bucket c s b = (s, Some EInvalidBucketName)).
+  { unfold ensure_bucket. rewrite Hb, Ha, Hv. reflexivity. }
+  split; [|split]; [| |intros body m]; cbn [step]; rewrite He; reflexivity.
+Qed.
+
+(* ---- C17 at the handler level: no bucket with an invalid name is ever created ---- *)
+
+Definition names_valid (s : state) : Prop :=
+  forall b bk, In (b, bk) (st_buckets s) -> validate b = true.
+
+Lemma names_valid_init : names_valid init.
+Proof. intros b bk []. Qed.
+
+Lemma names_valid_get s b bk : names_valid s -> get_bucket s b = Some bk -> validate b = true.
+Proof. intros Hn Hg. apply (Hn b bk). apply get_in. exact Hg. Qed.
+
+Lemma names_valid_set s b bk n :
+  names_valid s -> validate b = true ->
+  names_valid {| st_buckets := sm_set b bk (st_buckets s); st_next := n |}.
+Proof.
+  intros Hn Hv b' bk' Hin. cbn [st_buckets] in Hin.
+  destruct (in_set_inv _ _ _ _ _ Hin) as [E|Hin'].
+  - inversion E; subst. exact Hv.
+  - exact (Hn b' bk' Hin').
+Qed.
+
+Lemma names_valid_del s b n :
+  names_valid s -> names_valid {| st_buckets := sm_del b (st_buckets s); st_next := n |}.
+Proof.
+  intros Hn b' bk' Hin. cbn [st_buckets] in Hin. apply (Hn b' bk'). eapply in_del_inv. exact Hin.
+Qed.
+
+Lemma create_bucket_names_valid s b :
+  names_valid s -> validate b = true -> names_valid (fst (create_bucket s b)).
+Proof.
+  intros Hn Hv. unfold create_bucket. destruct (get_bucket s b); [exact Hn|].
+  cbn [fst]. unfold set_bucket. apply names_valid_set; assumption.
+Qed.
+
+Lemma delete_bucket_names_valid s b : names_valid s -> names_valid (fst (delete_bucket s b)).
+Proof.
+  intros Hn. unfold delete_bucket. destruct (get_bucket s b) as [bk|]; [|exact Hn].
+  destruct (b_objs bk); [|exact Hn]. cbn [fst]. apply names_valid_del. exact Hn.
+Qed.
+
+Lemma put_object_names_valid s b k body m :
+  names_valid s -> names_valid (fst (put_object s b k body m)).
+Proof.
+  intros Hn. unfold put_object. destruct (get_bucket s b) as [bk|] eqn:Eb; [|exact Hn].
+  destruct (bucket_put bk (st_next s) k false body m) as [[bk' n'] id]. cbn [fst].
+  apply names_valid_set; [exact Hn|]. eapply names_valid_get; eassumption.
+Qed.
+
+Lemma delete_object_names_valid s b k : names_valid s -> names_valid (fst (delete_object s b k)).
+Proof.
+  intros Hn. unfold delete_object. destruct (get_bucket s b) as [bk|] eqn:Eb; [|exact Hn].
+  destruct (bucket_rm bk (st_next s) k) as [[bk' n'] r]. cbn [fst].
+  apply names_valid_set; [exact Hn|]. eapply names_valid_get; eassumption.
+Qed.
+
+Lemma delete_object_version_names_valid s b k id :
+  names_valid s -> names_valid (fst (delete_object_version s b k id)).
+Proof.
+  intros Hn. unfold delete_object_version. destruct (get_bucket s b) as [bk|] eqn:Eb; [|exact Hn].
+  destruct (bucket_rm_version bk k id) as [bk' r]. cbn [fst].
+  apply names_valid_set; [exact Hn|]. eapply names_valid_get; eassumption.
+Qed.
+
+Lemma delete_multi_names_valid s b ks : names_valid s -> names_valid (delete_multi s b ks).
+Proof.
+  revert s. induction ks as [|[k [id|]] ks IH]; intros s Hn; cbn [delete_multi].
+  - exact Hn.
+  - apply IH. apply delete_object_version_names_valid. exact Hn.
+  - apply IH. apply delete_object_names_valid. exact Hn.
+Qed.
+
+Lemma set_versioning_names_valid s b en :
+  names_valid s -> names_valid (fst (set_versioning s b en)).
+Proof.
+  intros Hn. unfold set_versioning. destruct (get_bucket s b) as [bk|] eqn:Eb; [|exact Hn].
+  cbn [fst]. unfold set_bucket. apply names_valid_set; [exact Hn|].
+  eapply names_valid_get; eassumption.
+Qed.
+
+(* the bucket check creates a bucket on first use only under a valid name *)
+Lemma ensure_bucket_names_valid c s b : names_valid s -> names_valid (fst (ensure_bucket c s b)).
+Proof.
+  intros Hn. unfold ensure_bucket. destruct (get_bucket s b); [exact Hn|].
+  destruct (cfg_auto_bucket c); [|exact Hn].
+  destruct (validate b) eqn:Ev; [|exact Hn]. cbn [fst].
+  apply create_bucket_names_valid; assumption.
+Qed.
+
+(* every operation, in every configuration (auto-bucket included), keeps "every bucket has a
+   valid name" *)
+Lemma step_names_valid c s o : names_valid s -> names_valid (fst (step c s o)).
+Proof.
+  intros Hn. destruct o; cbn [step].
+  - (* create *) destruct (validate b) eqn:Ev; cbn [negb]; [|exact Hn].
+    pose proof (create_bucket_names_valid s b Hn Ev) as H.
+    destruct (create_bucket s b) as [s' [e|]]; exact H.
+  - (* delete bucket *)
+    pose proof (ensure_bucket_names_valid c s b Hn) as H1.
+    destruct (ensure_bucket c s b) as [s1 [e|]]; [exact H1|]. cbn [fst] in H1.
+    pose proof (delete_bucket_names_valid s1 b H1) as H2.
+    destruct (delete_bucket s1 b) as [s2 [e|]]; exact H2.
+  - pose proof (ensure_bucket_names_valid c s b Hn) as H1.
+    destruct (ensure_bucket c s b) as [s1 [e|]]; exact H1.
+  - exact Hn.
+  - (* put *)
+    pose proof (ensure_bucket_names_valid c s b Hn) as H1.
+    destruct (ensure_bucket c s b) as [s1 [e|]]; [exact H1|]. cbn [fst] in H1.
+    pose proof (put_object_names_valid s1 b k body (carry_meta s1 b k m) H1) as H2.
+    destruct (put_object s1 b k body (carry_meta s1 b k m)) as [s2 [[e|] vid]]; exact H2.
+  - (* get *)
+    pose proof (ensure_bucket_names_valid c s b Hn) as H1.
+    destruct (ensure_bucket c s b) as [s1 [e|]]; [exact H1|]. cbn [fst] in H1.
+    destruct vid as [id|].
+    + destruct (negb (cfg_versioned c)); [exact H1|].
+      destruct (get_object_version s1 b k id) as [e|v sv]; [exact H1|].
+      destruct (vd_marker v); exact H1.
+    + destruct (get_object s1 b k); exact H1.
+  - (* head *)
+    pose proof (ensure_bucket_names_valid c s b Hn) as H1.
+    destruct (ensure_bucket c s b) as [s1 [e|]]; [exact H1|]. cbn [fst] in H1.
+    destruct vid as [id|].
+    + destruct (negb (cfg_versioned c)); [exact H1|].
+      destruct (get_object_version s1 b k id) as [e|v sv]; [exact H1|].
+      destruct (vd_marker v); exact H1.
+    + destruct (get_object s1 b k); exact H1.
+  - (* delete *)
+    pose proof (ensure_bucket_names_valid c s b Hn) as H1.
+    destruct (ensure_bucket c s b) as [s1 [e|]]; [exact H1|]. cbn [fst] in H1.
+    pose proof (delete_object_names_valid s1 b k H1) as H2.
+    destruct (delete_object s1 b k) as [s2 [[e|] [mk vid]]]; exact H2.
+  - (* delete version *)
+    destruct (negb (cfg_versioned c)); [exact Hn|].
+    pose proof (ensure_bucket_names_valid c s b Hn) as H1.
+    destruct (ensure_bucket c s b) as [s1 [e|]]; [exact H1|]. cbn [fst] in H1.
+    pose proof (delete_object_version_names_valid s1 b k vid H1) as H2.
+    destruct (delete_object_version s1 b k vid) as [s2 [[e|] [mk vid']]]; exact H2.
+  - (* multi delete *)
+    pose proof (ensure_bucket_names_valid c s b Hn) as H1.
+    destruct (ensure_bucket c s b) as [s1 [e|]]; [exact H1|]. cbn [fst] in H1.
+    cbn [fst]. apply delete_multi_names_valid. exact H1.
+  - (* copy *)
+    pose proof (ensure_bucket_names_valid c s b Hn) as H1.
+    destruct (ensure_bucket c s b) as [s1 [e|]]; [exact H1|]. cbn [fst] in H1.
+    destruct (get_object s1 sb sk) as [e|v sv]; [exact H1|].
+    pose proof (put_object_names_valid s1 b k (vd_body v) (carry_meta s1 b k (merge_meta m (vd_meta v))) H1) as H2.
+    destruct (put_object s1 b k (vd_body v) (carry_meta s1 b k (merge_meta m (vd_meta v)))) as [s2 [[e|] vid]]; exact H2.
+  - (* set versioning *)
+    pose proof (ensure_bucket_names_valid c s b Hn) as H1.
+    destruct (ensure_bucket c s b) as [s1 [e|]]; [exact H1|]. cbn [fst] in H1.
+    destruct (negb (cfg_versioned c)); [exact H1|].
+    pose proof (set_versioning_names_valid s1 b enable H1) as H2.
+    destruct (set_versioning s1 b enable) as [s2 [e|]]; exact H2.
+  - (* list *)
+    pose proof (ensure_bucket_names_valid c s b Hn) as H1.
+    destruct (ensure_bucket c s b) as [s1 [e|]]; [exact H1|]. cbn [fst] in H1.
+    cbv zeta.
+    destruct ((has_marker || negb (beq marker []) || negb (maxkeys =? 0)) && negb (cfg_pages c) && cfg_fail_unimpl_page c);
+      [exact H1|].
+    destruct (if (has_marker || negb (beq marker []) || negb (maxkeys =? 0)) && negb (cfg_pages c)
+              then ([], 0) else (marker, maxkeys)) as [mk' mx'].
+    destruct (list_bucket s1 b pre delim mk' mx'); exact H1.
+Qed.
+
+Lemma run_names_valid_gen c ops s : names_valid s -> names_valid (fst (run c s ops)).
+Proof.
+  revert s. induction ops as [|o ops IH]; intros s Hn; cbn [run]; [exact Hn|].
+  pose proof (step_names_valid c s o Hn) as H1. destruct (step c s o) as [s1 r]. cbn [fst] in H1.
+  pose proof (IH s1 H1) as H2. destruct (run c s1 ops) as [s2 rs]. exact H2.
+Qed.
+
+Lemma run_names_valid c ops : names_valid (fst (run c init ops)).
+Proof. apply run_names_valid_gen. apply names_valid_init. Qed.
+
+(* the form restated as C17_auto_bucket_never_creates_invalid_name *)
+Lemma auto_bucket_never_creates_invalid_name :
+  (forall c s o,
+     (forall b bk, In (b, bk) (st_buckets s) -> validate b = true) ->
+     forall b bk, In (b, bk) (st_buckets (fst (step c s o))) -> validate b = true) /\
+  (forall c ops b bk, In (b, bk) (st_buckets (fst (run c init ops))) -> validate b = true).
+Proof. split; [exact step_names_valid|exact run_names_valid]. Qed.
+
+
 Print Assumptions step_inv.
 Print Assumptions law_error_frame.
+Print Assumptions law_missing_bucket_auto_invalid.
+Print Assumptions auto_bucket_never_creates_invalid_name.
